@@ -7,7 +7,7 @@
    once (C18_iter: strictly increasing enumeration of exactly the members). *)
 From Coq Require Import List ZArith Bool Arith Sorted Lia.
 From PV Require Import Model.Term Model.Subst Model.Unify Model.FD Model.State Model.Engine Proofs.FDProofs Proofs.FDPropProofs
-  Proofs.UnifyProofs Proofs.DiseqProofs Proofs.MonoProofs Proofs.DenProofs Proofs.FDDen Proofs.FDComp Proofs.Acyc Proofs.FDEq Spec.StreamSem Proofs.EngineProofs Proofs.FDProg Proofs.Complete0.
+  Proofs.UnifyProofs Proofs.DiseqProofs Proofs.MonoProofs Proofs.DenProofs Proofs.FDDen Proofs.FDComp Proofs.Acyc Proofs.FDEq Spec.StreamSem Proofs.EngineProofs Proofs.FDProg Proofs.Complete0 Proofs.ForceC.
 Import ListNotations.
 Local Open Scope Z_scope.
 
@@ -94,6 +94,19 @@ Theorem C17_no_solution_lost_flat : forall defs th g st, Den0 th g -> flat g -> 
   exists a n, MstG th a /\ emitsE (startq defs) n (startq defs g st) a.
 Proof. exact complete0_delivered. Qed.
 
+(* LABELING loses no solution: force_ans(x) - which enumerates, smallest value first, the domain of
+   every domain variable reachable from x through lists and compound terms (typed non-term fields
+   looked through) - started in a state that th solves delivers, after finitely many steps, a state
+   that th still solves: the branch of each variable's enumeration that carries th's value survives.
+   And the flat program followed by the labeling of the query term q, as proto_vulcan_query! runs it:
+   every assignment that satisfies all constraints within the domains solves a labeled answer. *)
+Theorem C17_labeling_complete : forall defs th x st, MstG th st -> GoodS st ->
+  exists a n, MstG th a /\ emitsE (startq defs) n (startq defs (CForceAns x) st) a.
+Proof. exact force_delivered. Qed.
+Theorem C17_program_then_labeling : forall defs th g q st, Den0 th g -> flat g -> MstG th st -> GoodS st ->
+  exists a n, MstG th a /\ emitsE (startq defs) n (startq defs (from_array BFS [g; CForceAns q]) st) a.
+Proof. exact flat_then_label. Qed.
+
 (* readings of the two outcomes *)
 Theorem C17_success_keeps : forall c st st' th, WFD st -> post_constraint c st = SOk st' ->
   MstG th st -> choldG th c -> MstG th st'.
@@ -149,3 +162,5 @@ Print Assumptions C17_failure_means_none.
 Print Assumptions C17_with_C16.
 Print Assumptions C17_eq_complete.
 Print Assumptions C17_no_solution_lost_flat.
+Print Assumptions C17_labeling_complete.
+Print Assumptions C17_program_then_labeling.
